@@ -1,6 +1,7 @@
 ------------------------------- MODULE KeyId -------------------------------
 (* Key identity (C12).  A key DESCRIPTION is [typ, scheme, halgs, mat]:     *)
-(* type, scheme, key-id hash-algorithm list ("absent" or "default") and     *)
+(* type, scheme, key-id hash-algorithm list ("absent", "default", or       *)
+(* "empty": present but without entries) and                               *)
 (* key material.  The intrinsic identifier Id(d) is an injective function   *)
 (* of the description (sha256 of its reference rendering; hash abstracted). *)
 (*                                                                          *)
@@ -32,6 +33,7 @@ Step(op, nd) == d' = nd /\ path' = Append(path, op) /\ UNCHANGED <<typ, mat>>
 FromPrivate == pc = "start" /\ Step("private", Desc(typ, SchemeOf(typ), "default", mat)) /\ pc' = "have"
 FromRaw     == pc = "start" /\ typ # "rsa" /\ Step("raw", Desc(typ, SchemeOf(typ), "absent", mat)) /\ pc' = "have"
 FromRawH    == pc = "start" /\ typ = "ed25519" /\ Step("raw_halgs", Desc(typ, SchemeOf(typ), "default", mat)) /\ pc' = "have"
+FromRawE    == pc = "start" /\ typ # "rsa" /\ Step("raw_empty", Desc(typ, SchemeOf(typ), "empty", mat)) /\ pc' = "have"
 FromSpki    == pc = "start" /\ Step("spki", Desc(typ, SchemeOf(typ), "default", mat)) /\ pc' = "have"
 FromPem     == pc = "start" /\ Step("pem", Desc(typ, SchemeOf(typ), "default", mat)) /\ pc' = "have"
 \* a freshly generated key pair (PrivateKey::new -> from_pkcs8): like FromPrivate, for new material
@@ -47,7 +49,7 @@ ViaJsonTxt == pc = "have" /\ Len(path) < 4 /\ Step("jsontext", d) /\ UNCHANGED p
 ViaSpki   == pc = "have" /\ Len(path) < 4 /\ Step("respki", [d EXCEPT !.halgs = "default"]) /\ UNCHANGED pc
 Stop      == pc = "have" /\ pc' = "done" /\ UNCHANGED <<typ, mat, d, path>>
 
-KNext == FromPrivate \/ FromGenerated \/ FromRaw \/ FromRawH \/ FromSpki \/ FromPem \/ FromSpkiOtherScheme
+KNext == FromPrivate \/ FromGenerated \/ FromRaw \/ FromRawH \/ FromRawE \/ FromSpki \/ FromPem \/ FromSpkiOtherScheme
          \/ ViaJson \/ ViaJsonTxt \/ ViaSpki \/ Stop
 
 KDone == pc = "done"
